@@ -423,3 +423,33 @@ func (s *Sim) CleanBuild(req BuildReq) (BuildResult, map[string]string) {
 	})
 	return res, products
 }
+
+// CloneFull copies the whole simulated project including build state, products, control
+// files and the execution log into a new Sim (for "what would a real build do now" twins).
+func (s *Sim) CloneFull() (*Sim, error) {
+	base, err := os.MkdirTemp("", "projsim-clone-")
+	if err != nil {
+		return nil, err
+	}
+	err = filepath.WalkDir(s.Env.Base, func(p string, d fs.DirEntry, err error) error {
+		if err != nil {
+			return err
+		}
+		rel, _ := filepath.Rel(s.Env.Base, p)
+		dst := filepath.Join(base, rel)
+		if d.IsDir() {
+			return os.MkdirAll(dst, 0o755)
+		}
+		data, err := os.ReadFile(p)
+		if err != nil {
+			return err
+		}
+		return os.WriteFile(dst, data, 0o644)
+	})
+	if err != nil {
+		os.RemoveAll(base)
+		return nil, err
+	}
+	c := &Sim{Env: &Env{Base: base}, M: s.M.Clone(), logOff: s.logOff}
+	return c, nil
+}
